@@ -458,6 +458,35 @@ def write_evidence(pid, tier, seed, level, coverage, assumptions, wall, violatio
     (evdir / f'{pid}.json').write_text(json.dumps(ev, indent=1, default=repr))
 
 
+class _Budget(Exception):
+    pass
+
+
+def _guarded(fn, seconds, rule, what):
+    import signal
+    import traceback
+
+    def on_alarm(signum, frame):
+        raise _Budget()
+    old = signal.signal(signal.SIGALRM, on_alarm)
+    signal.alarm(seconds)
+    try:
+        return fn()
+    except _Budget:
+        rep = Report(rule=rule)
+        rep.disagreements.append({'what': f'the harness ({what}) did not finish within {seconds} s: a command of the implementation does not return',
+                                  'replay': {'harness': what, 'problem': 'timeout'}})
+        return rep
+    except Exception:
+        rep = Report(rule=rule)
+        rep.disagreements.append({'what': f'the harness ({what}) could not evaluate the implementation: ' + traceback.format_exc()[-900:],
+                                  'replay': {'harness': what, 'problem': 'exception'}})
+        return rep
+    finally:
+        signal.alarm(0)
+        signal.signal(signal.SIGALRM, old)
+
+
 def main(argv):
     import importlib
     from harness.registry import REGISTRY
@@ -499,8 +528,11 @@ def main(argv):
     lines, exit_code, nviol = [], 0, 0
     with Scratch(pid) as sc:
         ctx = Ctx(pid, tier, seed, sc, random.Random(seed))
-        rep = mod.run(ctx)
         broken = []
+        # safety net: a harness that cannot evaluate the tree (an exception it does not expect, a command that never returns)
+        # must still end in a well-formed report: the failure is a broken correspondence, named in the replay file
+        budget = int(os.environ.get('VERIF_BUDGET_S', '1300' if tier == 'quick' else '20000'))
+        rep = _guarded(lambda: mod.run(ctx), budget, getattr(mod, 'RULE', ''), 'run')
         if not ok_native:
             broken.append({'what': 'native shim does not build from src/adapters.cpp', 'detail': native_log[-1500:]})
         if not proof['ok']:
@@ -512,7 +544,8 @@ def main(argv):
         if broken and not rep.violations and hasattr(mod, 'search'):
             log(f'{pid}: {len(broken)} broken obligation(s)/correspondence(s); running the large search')
             ctx2 = Ctx(pid, tier, seed, sc, random.Random(seed + 1), deep=True)
-            rep2 = mod.search(ctx2, broken)
+            rep2 = _guarded(lambda: mod.search(ctx2, broken), budget, getattr(mod, 'RULE', ''), 'search')
+            rep2.disagreements.clear()
             rep.merge(rep2)
     seen_known = {}
     fresh = []
